@@ -267,4 +267,73 @@ theorem AllM.addTxsLocked {s : State} (h : AllM s) (txs : List Tx) (l : Bool) : 
 theorem frame_addTxsLocked (s : State) (txs : List Tx) (l : Bool) : Frame s (s.addTxsLocked txs l).1 :=
   addTxsLocked_gen (Frame s) (fun s1 t l hi => hi.trans (frame_add s1 t l)) (Frame.refl s) txs l
 
+/-! ### the standalone operations built from `removeMany` -/
+
+theorem setGasPrice_gen (P : State → Prop) (hS : ∀ s s', Same s s' → P s → P s')
+    (hR : ∀ s ts oob, P s → P (State.removeMany s ts oob)) {s : State} (h : P s) (p : Nat) : P (s.setGasPrice p) := by
+  unfold State.setGasPrice
+  simp only
+  have h0 : P ({ s with gasPrice := p } : State) := hS s _ ⟨rfl, rfl, rfl⟩ h
+  exact hR _ _ _ (hS _ _ (same_pricedCap _ _) h0)
+
+theorem evict_gen (P : State → Prop) (hR : ∀ s ts oob, P s → P (State.removeMany s ts oob)) {s : State} (h : P s)
+    (ord : List Nat) (k : Nat) : P (s.evict ord k) := by
+  unfold State.evict
+  refine foldl_preserves P _ (fun s a hs => ?_) _ s h
+  simp only
+  split
+  · exact hs
+  · split
+    · exact hR _ _ _ hs
+    · exact hs
+
+theorem queueDropLoop_gen (P : State → Prop) (hR : ∀ s ts oob, P s → P (State.removeMany s ts oob)) (as : List Nat)
+    {s : State} (h : P s) (drop : Nat) : P (queueDropLoop as s drop) := by
+  induction as generalizing s drop with
+  | nil => exact h
+  | cons a rest ih =>
+    unfold YouVerif.C20.queueDropLoop
+    split
+    · exact h
+    · simp only
+      split
+      · exact ih (hR _ _ _ h) _
+      · exact hR _ _ _ h
+
+theorem truncateQueue_gen (P : State → Prop) (hR : ∀ s ts oob, P s → P (State.removeMany s ts oob)) {s : State}
+    (h : P s) (ord : List Nat) : P (s.truncateQueue ord) := by
+  unfold State.truncateQueue
+  simp only
+  split
+  · exact h
+  · exact queueDropLoop_gen P hR _ h _
+
+theorem AllJ.setGasPrice {s : State} (h : AllJ s) (p : Nat) : AllJ (s.setGasPrice p) :=
+  setGasPrice_gen AllJ (fun _ _ hs hi => hs.allJ hi) (fun _ ts oob hi => hi.removeMany ts oob) h p
+theorem AllI.setGasPrice {s : State} (h : AllI s) (p : Nat) : AllI (s.setGasPrice p) :=
+  setGasPrice_gen AllI (fun _ _ hs hi => hs.allIA hi) (fun _ ts oob hi => hi.removeMany ts oob) h p
+theorem AllM.setGasPrice {s : State} (h : AllM s) (p : Nat) : AllM (s.setGasPrice p) :=
+  setGasPrice_gen AllM (fun _ _ hs hi => hs.allMA hi) (fun _ ts oob hi => hi.removeMany ts oob) h p
+theorem frame_setGasPrice (s : State) (p : Nat) : Frame s (s.setGasPrice p) :=
+  setGasPrice_gen (Frame s) (fun _ _ hs hi => hi.trans hs.frame)
+    (fun s1 ts oob hi => hi.trans (frame_removeMany s1 ts oob)) (Frame.refl s) p
+
+theorem AllJ.evict {s : State} (h : AllJ s) (ord : List Nat) (k : Nat) : AllJ (s.evict ord k) :=
+  evict_gen AllJ (fun _ ts oob hi => hi.removeMany ts oob) h ord k
+theorem AllI.evict {s : State} (h : AllI s) (ord : List Nat) (k : Nat) : AllI (s.evict ord k) :=
+  evict_gen AllI (fun _ ts oob hi => hi.removeMany ts oob) h ord k
+theorem AllM.evict {s : State} (h : AllM s) (ord : List Nat) (k : Nat) : AllM (s.evict ord k) :=
+  evict_gen AllM (fun _ ts oob hi => hi.removeMany ts oob) h ord k
+theorem frame_evict (s : State) (ord : List Nat) (k : Nat) : Frame s (s.evict ord k) :=
+  evict_gen (Frame s) (fun s1 ts oob hi => hi.trans (frame_removeMany s1 ts oob)) (Frame.refl s) ord k
+
+theorem AllJ.truncateQueue {s : State} (h : AllJ s) (ord : List Nat) : AllJ (s.truncateQueue ord) :=
+  truncateQueue_gen AllJ (fun _ ts oob hi => hi.removeMany ts oob) h ord
+theorem AllI.truncateQueue {s : State} (h : AllI s) (ord : List Nat) : AllI (s.truncateQueue ord) :=
+  truncateQueue_gen AllI (fun _ ts oob hi => hi.removeMany ts oob) h ord
+theorem AllM.truncateQueue {s : State} (h : AllM s) (ord : List Nat) : AllM (s.truncateQueue ord) :=
+  truncateQueue_gen AllM (fun _ ts oob hi => hi.removeMany ts oob) h ord
+theorem frame_truncateQueue (s : State) (ord : List Nat) : Frame s (s.truncateQueue ord) :=
+  truncateQueue_gen (Frame s) (fun s1 ts oob hi => hi.trans (frame_removeMany s1 ts oob)) (Frame.refl s) ord
+
 end YouVerif.C20
